@@ -7,8 +7,17 @@
  * Lean driver `iodmodel`). */
 #include "h_common.h"
 
+#include <arpa/inet.h>
 #include "common.h"
 #include "encoding.h"
+#include "user.h"
+#include "login.h"
+#include "md5.h"
+#include "fw_query.h"
+
+static time_t vnow;
+time_t verif_time(time_t *t) { if (t) *t = vnow; return vnow; }
+extern unsigned usercount;
 
 static const struct encoder *codec_by_name(const char *n)
 {
@@ -180,6 +189,143 @@ static void op_unpack(char **tok, int ntok, int extract)
 	free(in); free(out); free(s);
 }
 
+/* ---- C18: init_users / find_user_by_ip / find_available_user on the real users[] ---- */
+static void op_initusers(char **tok, int ntok, int keep)
+{
+	unsigned long ip;
+	int nb, n, i;
+
+	if (ntok != 3) { puts("bad-op"); return; }
+	ip = strtoul(tok[1], NULL, 10);
+	nb = atoi(tok[2]);
+	if (users) { free(users); users = NULL; }
+	n = init_users(htonl((uint32_t) ip), nb);
+	if (keep) { printf("n=%d\n", n); return; }
+	printf("n=%d ips=", n);
+	if (n == 0) putchar('-');
+	for (i = 0; i < n; i++)
+		printf("%s%u", i ? "," : "", (unsigned) ntohl(users[i].tun_ip));
+	putchar('\n');
+}
+
+static void op_users(char **tok, int ntok)
+{
+	if (!strcmp(tok[0], "uset") && ntok == 6) {
+		unsigned i = atoi(tok[1]);
+		if (!users || i >= usercount) { puts("bad-op"); return; }
+		users[i].active = atoi(tok[2]);
+		users[i].authenticated = atoi(tok[3]);
+		users[i].disabled = atoi(tok[4]);
+		users[i].last_pkt = strtol(tok[5], NULL, 10);
+		puts("ok");
+	} else if (!strcmp(tok[0], "ufind") && ntok == 3) {
+		vnow = strtol(tok[1], NULL, 10);
+		printf("r=%d\n", find_user_by_ip(htonl((uint32_t) strtoul(tok[2], NULL, 10))));
+	} else if (!strcmp(tok[0], "uavail") && ntok == 2) {
+		vnow = strtol(tok[1], NULL, 10);
+		printf("r=%d\n", find_available_user());
+	} else if (!strcmp(tok[0], "uget") && ntok == 2) {
+		unsigned i = atoi(tok[1]);
+		if (!users || i >= usercount) { puts("bad-op"); return; }
+		printf("a=%d u=%d d=%d t=%ld ip=%u\n", users[i].active ? 1 : 0, users[i].authenticated ? 1 : 0,
+		       users[i].disabled ? 1 : 0, (long) users[i].last_pkt, (unsigned) ntohl(users[i].tun_ip));
+	} else puts("bad-op");
+}
+
+/* ---- C19: md5 / login_calculate ---- */
+static void op_md5(char **tok, int ntok)
+{
+	size_t len;
+	unsigned char *d, out[16];
+	md5_state_t ctx;
+
+	if (ntok != 2 || !(d = hex_alloc(tok[1], &len))) { puts("bad-op"); return; }
+	md5_init(&ctx);
+	md5_append(&ctx, d, len);
+	md5_finish(&ctx, out);
+	printf("out="); print_hex(out, 16); putchar('\n');
+	free(d);
+}
+
+/* login <seed decimal, may be negative> <hex of the typed password>: the password goes through the same
+ * strncpy into a zeroed char[33] that iodine.c/iodined.c use */
+static void op_login(char **tok, int ntok)
+{
+	size_t len;
+	unsigned char *d;
+	char *typed, password[33], *out;
+	long long seed;
+
+	if (ntok != 3 || !(d = hex_alloc(tok[2], &len))) { puts("bad-op"); return; }
+	seed = strtoll(tok[1], NULL, 10);
+	typed = xmalloc(len + 1);
+	memcpy(typed, d, len);
+	typed[len] = 0;
+	memset(password, 0, sizeof(password));
+	strncpy(password, typed, sizeof(password));
+	password[sizeof(password) - 1] = 0;
+	out = xmalloc(16);
+	login_calculate(out, 16, password, (int) (uint32_t) seed);
+	printf("out="); print_hex((unsigned char *) out, 16); putchar('\n');
+	free(out); free(typed); free(d);
+}
+
+/* ---- C20: the fw_query ring; the asker number is stored in the address bytes ---- */
+static void op_fw(char **tok, int ntok)
+{
+	if (!strcmp(tok[0], "fwinit") && ntok == 1) {
+		fw_query_init();
+		puts("ok");
+	} else if (!strcmp(tok[0], "fwput") && ntok == 3) {
+		struct fw_query q;
+		uint32_t a = strtoul(tok[1], NULL, 10);
+		memset(&q, 0, sizeof(q));
+		memcpy(&q.addr, &a, sizeof(a));
+		q.addrlen = sizeof(a);
+		q.id = (unsigned short) strtoul(tok[2], NULL, 10);
+		fw_query_put(&q);
+		puts("ok");
+	} else if (!strcmp(tok[0], "fwget") && ntok == 2) {
+		struct fw_query *q;
+		uint32_t a;
+		fw_query_get((unsigned short) strtoul(tok[1], NULL, 10), &q);
+		if (!q) { puts("r=none"); return; }
+		memcpy(&a, &q->addr, sizeof(a));
+		printf("r=%u\n", (unsigned) a);
+	} else puts("bad-op");
+}
+
+/* ---- C17: check_topdomain / query_datalen ---- */
+static char *cstr_from_hex(const char *hx)
+{
+	size_t len;
+	unsigned char *d = hex_alloc(hx, &len);
+	char *s;
+	if (!d) return NULL;
+	s = xmalloc(len + 1);	/* exact: over-reads past the NUL are reported */
+	memcpy(s, d, len);
+	s[len] = 0;
+	free(d);
+	return s;
+}
+
+static void op_topdom(char **tok, int ntok)
+{
+	char *s, *err = NULL;
+	if (ntok != 3 || !(s = cstr_from_hex(tok[2]))) { puts("bad-op"); return; }
+	printf("r=%d\n", check_topdomain(s, atoi(tok[1]), &err));
+	free(s);
+}
+
+static void op_qdl(char **tok, int ntok)
+{
+	char *q, *t;
+	if (ntok != 3 || !(q = cstr_from_hex(tok[1]))) { puts("bad-op"); return; }
+	if (!(t = cstr_from_hex(tok[2]))) { free(q); puts("bad-op"); return; }
+	printf("r=%d\n", query_datalen(q, t));
+	free(q); free(t);
+}
+
 int main(void)
 {
 	char *line = NULL;
@@ -187,7 +333,8 @@ int main(void)
 	char *tok[16];
 	int ntok;
 
-	setvbuf(stdout, NULL, _IOFBF, 1 << 16);
+	if (getenv("VERIF_LINEBUF")) setvbuf(stdout, NULL, _IOLBF, 0);
+	else setvbuf(stdout, NULL, _IOFBF, 1 << 16);
 	while (getline(&line, &n, stdin) > 0) {
 		ntok = split(line, tok, 16);
 		if (ntok == 0) { puts("bad-op"); continue; }
@@ -198,6 +345,21 @@ int main(void)
 		else if (!strcmp(tok[0], "dotify")) op_dotify(tok, ntok);
 		else if (!strcmp(tok[0], "unpack")) op_unpack(tok, ntok, 0);
 		else if (!strcmp(tok[0], "extract")) op_unpack(tok, ntok, 1);
+		else if (!strcmp(tok[0], "topdom")) op_topdom(tok, ntok);
+		else if (!strcmp(tok[0], "qdl")) op_qdl(tok, ntok);
+		else if (!strcmp(tok[0], "initusers")) op_initusers(tok, ntok, 0);
+		else if (!strcmp(tok[0], "uinit")) op_initusers(tok, ntok, 1);
+		else if (tok[0][0] == 'u') op_users(tok, ntok);
+		else if (!strcmp(tok[0], "md5selftest")) {
+			/* RFC 1321 vector through the real md5.c */
+			unsigned char out[16]; md5_state_t ctx;
+			static const unsigned char want[16] = {0x90,0x01,0x50,0x98,0x3c,0xd2,0x4f,0xb0,0xd6,0x96,0x3f,0x7d,0x28,0xe1,0x7f,0x72};
+			md5_init(&ctx); md5_append(&ctx, (const md5_byte_t *) "abc", 3); md5_finish(&ctx, out);
+			puts(memcmp(out, want, 16) ? "fail" : "ok");
+		}
+		else if (!strcmp(tok[0], "md5")) op_md5(tok, ntok);
+		else if (!strcmp(tok[0], "login")) op_login(tok, ntok);
+		else if (!strncmp(tok[0], "fw", 2)) op_fw(tok, ntok);
 		else puts("bad-op");
 	}
 	fflush(stdout);
